@@ -127,6 +127,26 @@ CLAIMED = {
             "are model-checked; simulated histories with up to 4 registrations are replayed on Deep.register_tracepoint / "
             "TracepointRegistration.unregister and the installed set is compared after every step.",
             TRUSTED),
+    'C14': (['Lifecycle'],
+            "TLA+ spec Lifecycle.tla (start/shutdown calls, NO_TRACE, pre-existing hooks, shutdown as a sequence of "
+            "steps each of which may fail; invariants InstalledWhenStarted, NoTraceUntouched, RestoredExactly, "
+            "ShutdownCompletes, QuietAfter, action property StoppedAfterShutdown) model-checked with TLC incl. three "
+            "deviations; walks through its state graph replayed on a real Deep object with fakes, one thread per walk",
+            "The life-cycle state machine is exhaustively checked (3,016 states: every sequence of <=4 start/shutdown "
+            "calls x hooks x NO_TRACE x every failure subset); graph walks (all edges in thorough) are replayed on the "
+            "real Deep with a fake channel, a real poll timer, pending failing deliveries and raising plugins, and the "
+            "hooks / started flag / timer liveness / pending deliveries / plugin shutdown calls compared after every call.",
+            TRUSTED + "; built-in plugin list emptied; GRPCService.start replaced by a fake channel"),
+    'C20': (['Plugins', 'Lifecycle'],
+            "TLA+ spec Plugins.tla (configure -> load -> one activity per callback kind; invariants LoadedSet, "
+            "LoadedOrder, NotLoadedNeverCalled, Isolation) model-checked with TLC incl. the AbortOnFirstFailure "
+            "deviation; simulated behaviours materialised as generated plugin classes and driven through the real "
+            "load_plugins / Deep.start / trigger / shutdown, every plugin's callbacks compared with the spec state",
+            "All configurations of <=2 plugins over the full grid (5.7M states) and <=3 over a reduced grid are "
+            "model-checked; sampled behaviours with up to 3 plugins are replayed on the real agent (snapshot+log, metric "
+            "and span tracepoints on one line) comparing loaded order, callback multisets, snapshot delivery and "
+            "decorations, resource contributions. Start/shutdown isolation is also covered by C14.",
+            TRUSTED + "; plugin callbacks raise Exception subclasses"),
 }
 
 NOT_YET = {}
